@@ -17,6 +17,7 @@ import (
 	"github.com/brewlin/net-protocol/stack"
 	"vharness/hx"
 	"vharness/netsim"
+	"vharness/tcpw"
 )
 
 var (
@@ -57,6 +58,11 @@ func (w *World) emit(op, res string) {
 
 // Reset builds the fixed topology.
 func (w *World) Reset(promisc2 bool) {
+	if w.S != nil && w.Focus == "C13" {
+		// ends the echo goroutines of the stack this history is done with (the echo histories wait for quiescence of
+		// all goroutines; the other generators' frames are judged later, against the addresses their stack still has)
+		w.S.VerifCloseNetworkEndpoints()
+	}
 	w.S = netsim.NewStack()
 	w.L = map[int]*netsim.Link{}
 	w.eps, w.wqs, w.is6 = nil, nil, nil
@@ -522,7 +528,9 @@ func (w *World) collect(nic int, expectOne bool) string {
 	if expectOne {
 		fs = w.L[nic].WaitFrames(1, 300*time.Millisecond)
 	} else {
-		time.Sleep(2 * time.Millisecond)
+		// the echo replier answers on a goroutine of its own: wait until every goroutine of the stack is parked again,
+		// otherwise a late reply is taken for the reaction to the next packet
+		tcpw.Quiesce()
 		fs = w.L[nic].Take()
 	}
 	for _, id := range []int{1, 2} {
